@@ -56,24 +56,89 @@ theorem csr_csr_precount_eq_written (nRow nCol : Nat) (A B : CSR) (hA : A.WF) (h
   intro i _
   exact (length_rowEmit hA hBw i).symm
 
-/-- non-vacuity and the order finding: a 1×2 times 2×3 product whose row comes out as columns
-`[1, 2, 0]` (reverse first touch), although the values are right -/
+/-- non-vacuity and the order finding: a 1×2 times 2×4 product (canonical operands) whose row comes
+out as columns `[1, 2, 0]` (reverse first touch), although the values are right -/
 def exC : CSR := { indptr := [0, 2], indices := [0, 1], data := [1, 1] }
 def exD : CSR := { indptr := [0, 2, 4], indices := [0, 2, 1, 2], data := [3, 4, 5, -4] }
-example : exC.WF ∧ exD.WF ∧ exC.ColsIn 2 ∧ exD.ColsIn 3
-    ∧ writtenRow (dotCsrCsrLoop 1 3 exC exD) 0 = [(1, 5), (2, 0), (0, 3)]
-    ∧ csrCsrCountNnz 1 3 exC exD = 3 := by decide
+example : exC.WF ∧ exD.WF ∧ exC.ColsIn 2 ∧ exD.ColsIn 4
+    ∧ writtenRow (dotCsrCsrLoop 1 4 exC exD) 0 = [(1, 5), (2, 0), (0, 3)]
+    ∧ csrCsrCountNnz 1 4 exC exD = 3 := by decide
 
 /-- The statement "every row of a `_dot_csr_csr` result has strictly increasing column indices"
 (canonical GCXS form, property C06) … -/
 def Statement_csr_csr_rows_sorted : Prop :=
-  ∀ (nRow nCol : Nat) (A B : CSR), A.WF → B.WF → B.ColsIn nCol → ∀ i, i < nRow →
-    ((writtenRow (dotCsrCsrLoop nRow nCol A B) i).map (·.1)).Pairwise (· < ·)
+  ∀ (nRow nCol : Nat) (A B : CSR) (o : SparseOut), A.WF → B.WF → B.ColsIn nCol → dotCsrCsr nRow nCol A B = .ok o →
+    ∀ i, i < nRow → (slice o.indices (o.indptr.getD i 0) (o.indptr.getD (i + 1) 0)).Pairwise (· < ·)
 
-/-- … is false: the witness above (canonical operands) yields columns `[1, 2, 0]`. -/
+/-- … is false: the witness above (`GCXS([[1,1]]) @ GCXS([[3,0,4,0],[0,5,-4,0]])`) yields columns `[1, 2, 0]`. -/
 theorem rows_sorted_counterexample : ¬ Statement_csr_csr_rows_sorted := by
   intro h
-  have := h 1 3 exC exD (by decide) (by decide) (by decide) 0 (by decide)
+  have e : dotCsrCsr 1 4 exC exD = .ok { data := [5, 0, 3], indices := [1, 2, 0], indptr := [0, 3], alloc := 3 } := by rfl
+  have := h 1 4 exC exD _ (by decide) (by decide) (by decide) e 0 (by decide)
+  revert this
+  decide
+
+/-! ### `_dot_coo_coo` -/
+
+/-- **coo_coo_kernel_spec.** The `(row, col, value)` triples `_dot_coo_coo` writes, restricted to
+output row `i` and looked up at column `k`, give `Σ_{j<n} a[i,j] · b[j,k]` — for all operands with
+in-range column coordinates. -/
+theorem coo_coo_kernel_spec (nRow n nCol : Nat) (A B : CSR) (hA : A.ColsIn n) (hB : B.ColsIn nCol)
+    (i k : Nat) (hi : i < nRow) :
+    lookupK (rowOfTriples (dotCooCooLoop nRow nCol A B).2 i) k = matmulSpec n A.get B.get i k := by
+  rw [(dotCooCooLoop_closed nRow nCol A B hB).2, rowOfTriples_flatMap _ nRow i hi, lookupK_rowEmit, contrib_touches]
+  exact rowsum_eq_spec n (A.row i) (fun j => B.get j k) (row_fst_lt hA i)
+
+/-- the pre-count of `_dot_coo_coo` equals the number of triples written -/
+theorem coo_coo_precount_eq_written (nRow nCol : Nat) (A B : CSR) (hA : A.WF) (hBw : B.WF) (hB : B.ColsIn nCol) :
+    (dotCooCoo nRow nCol A B).alloc = (dotCooCoo nRow nCol A B).data.length := by
+  unfold dotCooCoo
+  simp only [List.length_map]
+  rw [csrCsrCountNnz_closed nRow nCol A B hB, (dotCooCooLoop_closed nRow nCol A B hB).2, List.length_flatMap]
+  congr 1
+  apply List.map_congr_left
+  intro i _
+  rw [List.length_map]
+  exact (length_rowEmit hA hBw i).symm
+
+example : exC.ColsIn 2 ∧ exD.ColsIn 4 ∧ (dotCooCooLoop 1 4 exC exD).2 = [(0, 1, 5), (0, 2, 0), (0, 0, 3)]
+    ∧ (dotCooCoo 1 4 exC exD).alloc = 3 := by decide
+
+/-! ### `_dot_csc_ndarray_sparse`: pre-count and emission -/
+
+/-- "the slots `_csc_ndarray_count_nnz` allocates are exactly the entries `_dot_csc_ndarray_sparse`
+writes" (what `csr_csr_precount_eq_written` proves for `_dot_csr_csr`) … -/
+def Statement_csc_nd_sparse_precount_eq_written : Prop :=
+  ∀ (aRows bRows bCols : Nat) (A : CSR) (b : Dense), A.WF → A.ColsIn aRows →
+    (dotCscNdSparse aRows bRows bCols A b).alloc = (dotCscNdSparse aRows bRows bCols A b).data.length
+
+/-- the CSC triple of `[[1, -1, 2]]` and the dense `[[1,0],[1,0],[0,1]]`: column 0 of the product cancels -/
+def exE : CSR := { indptr := [0, 1, 2, 3], indices := [0, 0, 0], data := [1, -1, 2] }
+def exF : Dense := [[1, 0], [1, 0], [0, 1]]
+
+/-- … is false: the pre-count looks at the pattern only, the fill loop skips sums that are 0.  Two
+slots are allocated and `indptr = [0, 1, 2]`, but one entry is written: the entry of column 1 lands in
+column 0's slot and the last slot stays uninitialised
+(`tensordot(GCXS([[1,-1,2]], compressed_axes=(1,)), [[1,0],[1,0],[0,1]], return_type=GCXS)`). -/
+theorem csc_nd_sparse_precount_counterexample : ¬ Statement_csc_nd_sparse_precount_eq_written := by
+  intro h
+  have := h 1 3 2 exE exF (by decide) (by decide)
+  revert this
+  decide
+
+example : (dotCscNdSparse 1 3 2 exE exF).alloc = 2 ∧ (dotCscNdSparse 1 3 2 exE exF).data = [2]
+    ∧ (dotCscNdSparse 1 3 2 exE exF).indptr = [0, 1, 2] := by decide
+
+/-- "the row indices of every column written by `_dot_csc_ndarray_sparse` increase" … -/
+def Statement_csc_nd_sparse_cols_sorted : Prop :=
+  ∀ (aRows bRows bCols : Nat) (A : CSR) (b : Dense), A.WF → A.ColsIn aRows → ∀ i, i < bCols →
+    (slice (dotCscNdSparse aRows bRows bCols A b).indices ((dotCscNdSparse aRows bRows bCols A b).indptr.getD i 0)
+      ((dotCscNdSparse aRows bRows bCols A b).indptr.getD (i + 1) 0)).Pairwise (· < ·)
+
+/-- … is false (same linked-list walk): `[[1,0],[2,0],[0,3]]` (CSC) times `[[1,1],[0,1]]` gives column 0 as rows `[1, 0]`. -/
+theorem csc_cols_sorted_counterexample : ¬ Statement_csc_nd_sparse_cols_sorted := by
+  intro h
+  have := h 3 2 2 { indptr := [0, 2, 3], indices := [0, 1, 2], data := [1, 2, 3] } [[1, 1], [0, 1]] (by decide) (by decide) 0 (by decide)
   revert this
   decide
 
@@ -199,6 +264,36 @@ theorem transpose_trick (n : Nat) (a b : Nat → Nat → Int) (i k : Nat) :
   apply List.map_congr_left
   intro j _
   exact Int.mul_comm _ _
+
+/-! ### `tensordot` axis bookkeeping -/
+
+/-- **tensordot_newaxes_perm.** For distinct, in-range contraction axes, `newaxes_a = notin + axes_a`
+and `newaxes_b = axes_b + notin` are permutations of `range(ndim)`: the transposes before the
+reshape-to-2-D move every axis exactly once. -/
+theorem tensordot_newaxes_perm (nd : Nat) (axes : List Nat) (hnd : axes.Nodup) (hr : ∀ a ∈ axes, a < nd) :
+    (newaxesA nd axes).Perm (List.range nd) ∧ (newaxesB nd axes).Perm (List.range nd) :=
+  ⟨notin_append_perm nd axes hnd hr, List.perm_append_comm.trans (notin_append_perm nd axes hnd hr)⟩
+
+/-- **tensordot_result_rank.** The result shape `olda + oldb` has rank `nda + ndb - 2·(number of
+contracted axes)`. -/
+theorem tensordot_result_rank (sa sb xa xb : List Nat) (ha : xa.Nodup) (hb : xb.Nodup)
+    (hra : ∀ a ∈ xa, a < sa.length) (hrb : ∀ a ∈ xb, a < sb.length) :
+    (tdShape sa sb xa xb).length + xa.length + xb.length = sa.length + sb.length := by
+  have h1 := (notin_append_perm sa.length xa ha hra).length_eq
+  have h2 := (notin_append_perm sb.length xb hb hrb).length_eq
+  simp only [List.length_append, List.length_range] at h1 h2
+  simp only [tdShape, List.length_append, List.length_map]
+  omega
+
+/-- **tensordot_n2_agree.** When the `equal` test passes, the inner dimension `N2` computed from `a`
+equals the one computed from `b`: the two reshapes `(-1, N2)` and `(N2, -1)` fit together. -/
+theorem tensordot_n2_agree (sa sb xa xb : List Nat) (h : tdAxesOk sa sb xa xb = true) : n2 sa xa = n2 sb xb := by
+  unfold tdAxesOk at h
+  simp only [Bool.and_eq_true, beq_iff_eq] at h
+  exact n2_eq sa sb xa xb 1 h.1 h.2
+
+example : newaxesA 4 [3, 1] = [0, 2, 3, 1] ∧ newaxesB 3 [0, 2] = [0, 2, 1]
+    ∧ tdShape [2, 5, 3, 4] [4, 7, 5] [3, 1] [0, 2] = [2, 3, 7] ∧ tdAxesOk [2, 5, 3, 4] [4, 7, 5] [3, 1] [0, 2] = true := by decide
 
 example : dotDispatch .nd (.gcxs .c0) .c0 false .coo
     = some { kernel := .cscNdSparse, orient := .swapT, resultCA := some .c0, prune := true, post := .tocoo } := by decide
